@@ -464,7 +464,9 @@ namespace SA.PkgState
     where the endpoint registered last would answer the queries of every DNS endpoint of the process with *its*
     session table and *its* allow-list.  This is what lets `runAt` (SA.Model.Routing) treat DNS endpoints like the
     other server kinds: the request is judged by the list of the endpoint it arrived on. -/
-theorem C03_dns_endpoints_have_their_own_handler : Gen.dnsHandlerOnOwnMux = true := by decide
+theorem C03_dns_endpoints_have_their_own_handler :
+    Gen.dnsHandlerOnOwnMux = true ∧
+    Gen.globalRegistrations = ["internal/streams/dns/util/socketace_private_rr.go: dns.PrivateHandle"] := by decide
 end SA.PkgState
 
 #print axioms SA.PkgState.C03_dns_endpoints_have_their_own_handler
